@@ -40,7 +40,44 @@ let clamp_int s =
 (* "_" stands for a blank in inputs reported by the extra steps *)
 let words s = words (String.map (fun c -> if c = '_' then ' ' else c) s)
 
+(* ---- supplementary operations (outside C17; traces of `sliceutiltrace -prop C17x`) ---- *)
+let rec compact = function a :: (b :: _ as r) -> if a = b then compact r else a :: compact r | l -> l
+let eval_extra = function
+  | ["L"; vals; mask; m] ->
+    let mask = int_of_string mask in
+    let ((got, _), calls) = M.select_loop (M.take_consumer (z (int_of_string m))) (keep_of mask) (ints_of vals) ([], z 0) (z 0) in
+    Some (str_ints got ^ " " ^ string_of_int (int_of_z calls))
+  | ["M"; keys] ->
+    if keys = "nil" then Some "nil" else
+    (match M.map_keys (List.map (fun k -> (k, k + 100)) (ints_of keys)) with
+     | None -> Some "nil"
+     | Some ks -> Some (str_ints (List.sort compare ks)))
+  | ["K"; keys; mask; m; order] ->
+    let keys = ints_of keys and mask = int_of_string mask and m = int_of_string m and order = ints_of order in
+    (* the oracle: distinct keys of the map ... *)
+    let valid = List.for_all (fun k -> List.mem k keys) order && List.length (List.sort_uniq compare order) = List.length order in
+    let ((got, _), calls) = M.matching_loop (M.take_consumer (z m)) (fun v -> keep_of mask (v - 100)) (List.map (fun k -> (k, k + 100)) order) ([], z 0) (z 0) in
+    (* ... and all of them unless the consumer left the loop *)
+    let stopped = m > 0 && List.length got = m in
+    if not valid || (not stopped && List.length order <> List.length keys) then Some "BAD-ORACLE"
+    else Some (str_ints got ^ " " ^ string_of_int (int_of_z calls))
+  | [k; pre; extra; vals; _] when k = "Z" || k = "V" || k = "D" ->
+    let pre = int_of_string pre and extra = int_of_string extra and vals = ints_of vals in
+    let (base, v) = mk pre extra vals in
+    let n = List.length vals in
+    let put l = List.mapi (fun i x -> if pre >= 0 && i >= pre && i < pre + n then List.nth l (i - pre) else x) base in
+    (match k with
+     | "Z" -> Some (show_res str_ints (M.zero_view 0 base v))
+     | "V" -> Some (str_ints (put (List.rev vals)))             (* reference only: slices.Reverse *)
+     | _ ->                                                     (* reference only: slices.Compact clears the tail *)
+       let c = compact vals in
+       let k = List.length c in
+       let r = { M.voff = v.M.voff; M.vlen = z k; M.vcap = v.M.vcap } in
+       Some (show_view v r ^ " " ^ str_ints (put (c @ List.init (n - k) (fun _ -> 0)))))
+  | _ -> None
+
 let eval inp =
+  match eval_extra (words inp) with Some s -> s | None ->
   match words inp with
   | ["S"; i; ls] ->
     show_res str_ints (M.stripe (parse_lists ls) (z_of_string i))
@@ -109,7 +146,42 @@ let check_cover pre n vs =
     pos := !pos + v.len) vs;
   if !pos <> pre + n then bad "subslices cover %d elements, the input has %d" (!pos - pre) n
 
+(* supplementary: what the documentation of Zero, Select, MatchingKeys, MapKeys says, directly *)
+let spec_extra inp out =
+  try
+    (match words inp with
+     | ["L"; vals; mask; m] ->
+       let vals = ints_of vals and mask = int_of_string mask and m = int_of_string m in
+       let want = List.filter (keep_of mask) vals in
+       let want = if m > 0 then take m want else want in
+       (match words out with
+        | [got; _] -> if ints_of got <> want then bad "Select: expected %s" (str_ints want)
+        | _ -> bad "bad output syntax")
+     | ["M"; keys] ->
+       let want = if keys = "nil" || ints_of keys = [] then "nil" else str_ints (List.sort compare (ints_of keys)) in
+       if out <> want then bad "MapKeys: expected %s" want
+     | ["K"; keys; mask; m; _] ->
+       let keys = ints_of keys and mask = int_of_string mask and m = int_of_string m in
+       let matching = List.filter (keep_of mask) keys in
+       (match words out with
+        | [got; _] ->
+          let got = ints_of got in
+          if List.length (List.sort_uniq compare got) <> List.length got then bad "MatchingKeys: a key delivered twice";
+          if not (List.for_all (fun k -> List.mem k matching) got) then bad "MatchingKeys: delivered a key whose value does not match";
+          let wantn = if m > 0 then min m (List.length matching) else List.length matching in
+          if List.length got <> wantn then bad "MatchingKeys: %d keys delivered, expected %d" (List.length got) wantn
+        | _ -> bad "bad output syntax")
+     | ["Z"; pre; extra; vals; _] ->
+       let pre = int_of_string pre and extra = int_of_string extra and vals = ints_of vals in
+       if is_panic out then bad "Zero panics";
+       let w' = window_after pre extra vals (ints_of out) in
+       if List.exists (fun x -> x <> 0) w' then bad "Zero: a non-zero element remains"
+     | _ -> ());
+    None
+  with Bad s -> Some s
+
 let spec prop inp out =
+  if prop = "C17x" then spec_extra inp out else
   if prop <> "C17" then None else
   try
     (match words inp with
